@@ -66,3 +66,30 @@ func ruleStRotationSeqOnly(c *Ctx, r *Reporter) {
 		}
 	}
 }
+
+func init() {
+	register(&PropertyDef{
+		ID: "C01",
+		Explanation: "Decided mechanisms behind 'reads return the latest write through every layer': " +
+			"(1) layer order — the precedence slices (MemTablePool.immutables, Manager.sstables) only grow by append (newest last); MemTablePool.Get, Manager.Get and Manager.IsDeleted consult the newer layer first and walk the slice from the last element down; a hit never falls through to an older layer; " +
+			"(2) tombstone short-circuit — a deletion marker in the memtables ends the lookup with not-found; an SSTable value is returned only on the exact-key, IsTombstone()==false edge of the same iterator; " +
+			"(3) version order — decision tables of entry.compareWithEntry, SkipList.Find's selection and SkipList.Insert's position (P-ORD over all orderings); flush keeps the first (newest) entry of a key unless a later one has a strictly higher sequence; " +
+			"(4) stamps — the memtable stamp is the number the log assigned; (5) empty is not deleted — no nil-collapsing copy reaches a 'nil means tombstone' sink and a value entry never keeps nil; " +
+			"(6) flush writes every collected entry, tombstones included, with its own sequence number; the tombstone marker constant is shared by block writer and reader; " +
+			"(7) the SSTable list is given a recency order when loaded from disk.",
+		NotDecided: "that the bytes returned equal the bytes put for every program (values); block/index seek landing inside SSTables (value-level binary search — the pinned tree gets this wrong, declared under C11); effects of memtable-size configurations.",
+		Rules:      []func(*Ctx, *Reporter){ruleLayerOrder, ruleTombstoneShortCircuit, ruleMemComparator, ruleMemFind, ruleMemInsert, ruleFlushRules, ruleStStamps, ruleEmptyNotDeleted, ruleTombstoneMarker, ruleRecencyAtLoad},
+	})
+	register(&PropertyDef{
+		ID: "C05",
+		Explanation: "Decided mechanisms behind 'scans return exactly the live keys, once, in order, within bounds': " +
+			"(1) source order — GetMemTables lists the active table first and the immutables newest first; the factory keeps memtable order, adds SSTables from the last down, memtables before SSTables, and merges with the hierarchical iterator; " +
+			"(2) merge policy — decision tables (P-ORD) of findNextUniqueKey / Seek / SeekToLast: smallest (resp. greatest) key wins, on equal keys the earlier (newer) source keeps precedence, exhausted sources and keys below the target are skipped, sources are advanced exactly while their key <= the key just emitted; " +
+			"(3) bounds — checkBounds ⇔ start <= key < end over all nil/non-nil bound combinations; Seek clamps below start and refuses at/after end; every accessor goes through the check; " +
+			"(4) filter — Next/Seek report success only for keys that pass the predicate, Valid ⇔ inner valid ∧ predicate, prefix/suffix predicates are HasPrefix/HasSuffix(key, pattern); " +
+			"(5) consumers — Scan/TxScan send only on the not-a-tombstone edge, stop iff limit > 0 ∧ count >= limit before emitting and count only emitted entries; " +
+			"(6) memtable iterators skip nodes invisible in their snapshot in Next/Seek/SeekToFirst; (7) transaction scans overlay the buffer as source 0, bounded like the storage range.",
+		NotDecided: "exactness of the key set for all data sets, seek landing inside SSTable blocks (see C11), scans concurrent with writers beyond the snapshot rule.",
+		Rules:      []func(*Ctx, *Reporter){ruleSourceOrder, ruleMergePolicy, ruleBounds, ruleFilter, ruleScanConsumers, ruleMemVisibility, ruleTxOwnWrites},
+	})
+}
